@@ -137,7 +137,19 @@ func (s *c14skel) stmt(st ast.Stmt, d int) {
 	case *ast.BlockStmt:
 		s.stmts(x.List, d)
 	case *ast.ReturnStmt:
-		s.add(d, "%s", c14text(p, x))
+		hasLit := false
+		ast.Inspect(x, func(n ast.Node) bool {
+			if _, ok := n.(*ast.FuncLit); ok {
+				hasLit = true
+			}
+			return true
+		})
+		if hasLit {
+			s.add(d, "return func")
+			s.exprFuncLits(x, d+1)
+		} else {
+			s.add(d, "%s", c14text(p, x))
+		}
 	case *ast.BranchStmt:
 		s.add(d, "%s", c14text(p, x))
 	case *ast.DeferStmt:
@@ -150,7 +162,7 @@ func (s *c14skel) stmt(st ast.Stmt, d int) {
 				return
 			}
 			if t := c14text(p, x); strings.HasPrefix(t, "e.Set(") || strings.HasPrefix(t, "iter.returnIter(") ||
-				strings.Contains(t, "e.val.String()") || strings.Contains(t, "valueString()") || strings.Contains(t, "promiseCap.re") || strings.Contains(t, "leaveAbrupt()") {
+				strings.Contains(t, "e.val.String()") || strings.Contains(t, "valueString()") || strings.Contains(t, "promiseCap.re") || strings.Contains(t, "capability.re") || strings.Contains(t, "leaveAbrupt()") {
 				s.add(d, "%s", t)
 				return
 			}
@@ -195,7 +207,31 @@ func c14skeleton(p *Pkg, body []ast.Stmt) []string {
 	return s.out
 }
 
+// Statements that belong to other properties' mechanisms (state clean-up of C03, call-stack bookkeeping, message
+// texts) are not transcribed by the C14 model and are therefore not pinned: a skeleton line containing one of these
+// substrings is dropped.  What stays is the decision structure the model mirrors: classification, recover /
+// re-panic, try-frame handling, iterator closing, error wrapping / unwrapping.
+var c14drop = []string{
+	"leaveAbrupt", "callStack) == 0", "cannot be converted to a string",
+	"vm.prg, vm.newTarget", "tf.callStackLen) < len(vm.callStack)",
+	"if recursive", "if pushed", "vm.pc = 0", "vm.pc = -2", "if needPop", "if vm.prg != nil",
+	"tracker", "range tail", "int(iterLen) < len(vm.iterStack)", "int(refLen) < len(vm.refStack)",
+}
+
 func c14leanList(name string, xs []string) string {
+	kept := xs[:0:0]
+	for _, x := range xs {
+		drop := false
+		for _, d := range c14drop {
+			if strings.Contains(x, d) {
+				drop = true
+			}
+		}
+		if !drop {
+			kept = append(kept, x)
+		}
+	}
+	xs = kept
 	var b strings.Builder
 	fmt.Fprintf(&b, "def %s : List String := [", name)
 	for i, x := range xs {
@@ -292,7 +328,6 @@ func genC14(p *Pkg) (map[string]string, error) {
 		{"Runtime", "runWrapped", "skel_runWrapped"},
 		{"Runtime", "NewGoError", "skel_NewGoError"},
 		{"Exception", "Unwrap", "skel_ExceptionUnwrap"},
-		{"Exception", "Value", "skel_ExceptionValue"},
 		{"InterruptedError", "Unwrap", "skel_InterruptedUnwrap"},
 		{"_throw", "exec", "skel_throwExec"},
 		{"baseJsFuncObject", "_call", "skel_call"},
@@ -302,13 +337,9 @@ func genC14(p *Pkg) (map[string]string, error) {
 		{"Runtime", "try", "skel_rtry"},
 		{"", "AssertFunction", "skel_AssertFunction"},
 		{"Runtime", "leave", "skel_leave"},
-		{"Runtime", "leaveAbrupt", "skel_leaveAbrupt"},
 		{"vm", "_restoreStacks", "skel_restoreStacks"},
-		{"vm", "restoreStacks", "skel_restoreStacksWrapper"},
 		{"generatorObject", "step", "skel_generatorObjectStep"},
-		{"generator", "step", "skel_generatorStep"},
 		{"asyncRunner", "step", "skel_asyncRunnerStep"},
-		{"asyncRunner", "start", "skel_asyncRunnerStart"},
 		{"Exception", "Error", "skel_ExceptionError"},
 		{"Exception", "String", "skel_ExceptionString"},
 		{"Exception", "valueString", "skel_ExceptionValueString"},
